@@ -110,18 +110,19 @@ def rebuildOp (f : FsCfg) (w : World) : World × Option Err :=
   ({ w with idx := (index f.c w.idx w.tape ⟨0, 0⟩ true false 0 .tape).1 },
    (index f.c w.idx w.tape ⟨0, 0⟩ true false 0 .tape).2)
 
-/-- `STFS.Initialize` (existing root → return it; else rebuild; on any failure `mkdirRoot`) -/
-def initFs (f : FsCfg) (env : Env) (rootProposal : Name) (rootPerm : Int) : M Name := do
-  match ← M.attempt (M.idx (·.getRootPath)) with
-  | .ok r => pure r
-  | .error .noRoot =>
-    let w ← M.get
-    if w.stuck then M.fail .stuck else
-    if w.tape == [] then mkdirRoot f env rootProposal rootPerm else     -- no readable tape
-    match ← M.attempt (M.op (rebuildOp f)) with
-    | .ok _ => M.idx (·.getRootPath)
-    | .error _ => mkdirRoot f env rootProposal rootPerm
-  | .error e => M.fail e
+/-- `STFS.Initialize`: an existing root is returned as is; otherwise the index is rebuilt from
+    the tape; only when there is no readable tape, or the rebuild fails, a root is created with
+    overwrite semantics (`mkdirRoot`).  Written as an explicit state transformer. -/
+def initFs (f : FsCfg) (env : Env) (rootProposal : Name) (rootPerm : Int) : M Name := fun w =>
+  match w.idx.getRootPath with
+  | (q, .ok root) => ({ w with idx := q }, .ok root)
+  | (q, .error .noRoot) =>
+    if w.stuck then ({ w with idx := q }, .error .stuck)
+    else if w.tape == [] then mkdirRoot f env rootProposal rootPerm { w with idx := q }     -- no readable tape
+    else match rebuildOp f { w with idx := q } with
+      | (w2, none) => ({ w2 with idx := (w2.idx.getRootPath).1 }, (w2.idx.getRootPath).2)
+      | (w2, some _) => mkdirRoot f env rootProposal rootPerm w2
+  | (q, .error e) => ({ w with idx := q }, .error e)
 
 /-- the precondition part of `Mkdir`: read-only probes, returns the cleaned name -/
 def mkdirGuard (f : FsCfg) (name : Name) : M Name := do
